@@ -122,7 +122,7 @@ def program(f, vals, pattern, ctx, route):
     if uses_v:
         pre.append("(var v 7)")
     if ctx in SET_CONTEXTS:
-        pre.append("(var x 9)")
+        pre.append("(var x 5)")
     if "M3" in vals:
         pre.append("(def M3 (mkM 3 :num (fn [] (set v 50))))")
     pre += qdefs
